@@ -16,7 +16,7 @@
    FULL STATEMENT per entry point: shaped; row 0 of every series = the requested initial quantity; S+I(+R) at
    every row = the structural total (N when the tuple is built by subtraction; the sum of solver row j otherwise,
    which is N for a solver that preserves the sum). *)
-From EoNV Require Import Prelude Graph Aux Vec IC Wrappers VecP Rhs ICConserve Outputs OutputsP OutputsE1 OutputsE2 OutputsG.
+From EoNV Require Import Prelude Graph Aux Vec IC Wrappers VecP ICP Rhs ICConserve Attack Pgf Rhs2D C14xDef Outputs Outputs2 OutputsP OutputsE1 OutputsE2 OutputsG OutputsN OutputsD.
 From Coq Require Import Lqa.
 
 (* ---------------- the time grid ---------------- *)
@@ -73,7 +73,7 @@ Print Assumptions C06out_SIS_homogeneous_meanfield_generated_rhs.
 Example C06out_SIS_homogeneous_meanfield_example :
   exists r, run_model (m_SIS_homogeneous_meanfield 9 1) 0 1 3 (euler_solver 2 (fun x t => dSIS_homogeneous_meanfield x t (3 # 10) 1 1)) = Ok r
             /\ map (fun j => Qred (sval oS j r + sval oI j r)) [0; 1; 2]%nat = [10; 10; 10] /\ ~ sval oI 2 r == 1.
-Proof. eexists. split; [reflexivity|]. split; [vm_compute; reflexivity|]. vm_compute. discriminate. Qed.
+Proof. eexists. split; [vm_compute; reflexivity|]. split; [vm_compute; reflexivity|]. vm_compute. discriminate. Qed.
 Print Assumptions C06out_SIS_homogeneous_meanfield_example.
 
 Theorem C06out_SIR_homogeneous_meanfield : forall sv S0 I0 R0 tmin tmax n r,
@@ -175,7 +175,7 @@ Print Assumptions C06out_SIR_heterogeneous_pairwise.
 Example C06out_SIR_heterogeneous_pairwise_example :
   exists r, run_model (m_SIR_heterogeneous_pairwise [3; 4] [1; 2] [0; 1] [[1; 2]; [3; 4]] [[5; 6]; [7; 8]] None true) 0 1 2 (fun x0 ts => map (fun _ => x0) ts) = Ok r
             /\ mval oSkSl 1 r = [[1; 2]; [3; 4]] /\ mval oSkIl 1 r = [[5; 6]; [7; 8]] /\ r_X0 r = [3; 4; 1; 2; 1; 2; 3; 4; 5; 6; 7; 8].
-Proof. eexists. split; [reflexivity|]. vm_compute. auto. Qed.
+Proof. eexists. split; [vm_compute; reflexivity|]. vm_compute. auto. Qed.
 Print Assumptions C06out_SIR_heterogeneous_pairwise_example.
 
 (* ---------------- compact pairwise / compact effective degree ---------------- *)
@@ -251,7 +251,7 @@ Print Assumptions C06out_SIR_effective_degree.
 Example C06out_SIS_effective_degree_example :   (* a 2 x 3 block: rows stay rows *)
   exists r, run_model (m_SIS_effective_degree [[1; 2; 3]; [4; 5; 6]] [[7; 8; 9]; [10; 11; 12]] true) 0 1 2 (fun x0 ts => map (fun _ => x0) ts) = Ok r
             /\ mval oSsi 1 r = [[1; 2; 3]; [4; 5; 6]] /\ mval oIsi 1 r = [[7; 8; 9]; [10; 11; 12]].
-Proof. eexists. split; [reflexivity|]. vm_compute. auto. Qed.
+Proof. eexists. split; [vm_compute; reflexivity|]. vm_compute. auto. Qed.
 Print Assumptions C06out_SIS_effective_degree_example.
 
 (* ---------------- EBCM ---------------- *)
@@ -263,3 +263,243 @@ Theorem C06out_EBCM : forall sv N psihat R0 full tmin tmax n r,
   (forall j, (j < n)%nat -> sval oS j r + sval oI j r + sval oR j r == N).
 Proof. exact out_EBCM. Qed.
 Print Assumptions C06out_EBCM.
+
+(* ====================== node-level systems ====================== *)
+(* per-node arrays are in the order of the CALLER's nodelist (default: G.nodes()); y0_rho = rho for every node,
+   y0_set nodelist I0 = indicator of initial_infecteds, x0_sets = indicator of "neither infected nor recovered";
+   amask = the (nodelist x nodelist) array multiplied by the adjacency matrix in nodelist order *)
+Theorem C06out_SIS_individual_based_rho : forall sv g tmin tmax n r, msolver_ok sv -> (0 < n)%nat -> forall rho nl full,
+  run_model (m_SIS_individual_based g (Some rho) None nl full) tmin tmax n sv = Ok r ->
+  let nodelist := nodelist_or g nl in
+  shaped r tmin tmax n (y0_rho nodelist rho) (if full then [oSs; oIs] else [oS; oI]) /\
+  (if full then vval oIs 0 r = y0_rho nodelist rho /\ vval oSs 0 r = x0_of (y0_rho nodelist rho)
+   else sval oI 0 r == rho * Qnat (length nodelist) /\ sval oS 0 r == (1 - rho) * Qnat (length nodelist)) /\
+  (forall j, (j < n)%nat -> (if full then vsum (vval oSs j r) + vsum (vval oIs j r) else sval oS j r + sval oI j r) == Qnat (length nodelist)).
+Proof. exact out_SIS_individual_based_rho. Qed.
+Print Assumptions C06out_SIS_individual_based_rho.
+Theorem C06out_SIS_individual_based_Y0 : forall sv g tmin tmax n r, msolver_ok sv -> (0 < n)%nat -> forall Y0 nl full,
+  run_model (m_SIS_individual_based g None (Some Y0) (Some nl) full) tmin tmax n sv = Ok r ->
+  shaped r tmin tmax n Y0 (if full then [oSs; oIs] else [oS; oI]) /\
+  (if full then vval oIs 0 r = Y0 /\ vval oSs 0 r = x0_of Y0 else sval oI 0 r = vsum Y0 /\ sval oS 0 r == Qnat (length Y0) - vsum Y0) /\
+  (forall j, (j < n)%nat -> (if full then vsum (vval oSs j r) + vsum (vval oIs j r) else sval oS j r + sval oI j r) == Qnat (length Y0)).
+Proof. exact out_SIS_individual_based_Y0. Qed.
+Print Assumptions C06out_SIS_individual_based_Y0.
+Theorem C06out_rejects_SIS_individual_based : forall g rho Y0 nl full,
+  (Y0 <> None /\ nl = None) \/ (rho = None /\ Y0 = None) \/ (rho <> None /\ Y0 <> None) ->
+  m_SIS_individual_based g rho Y0 nl full = Err EoNError.
+Proof. exact rejects_SIS_individual_based. Qed.
+Print Assumptions C06out_rejects_SIS_individual_based.
+Theorem C06out_SIS_individual_based_pure_IC : forall sv g tmin tmax n r, msolver_ok sv -> (0 < n)%nat -> forall I0 nl full,
+  run_model (m_SIS_individual_based_pure_IC g I0 nl full) tmin tmax n sv = Ok r ->
+  let nodelist := nodelist_or g nl in
+  shaped r tmin tmax n (y0_set nodelist I0) (if full then [oSs; oIs] else [oS; oI]) /\
+  (if full then vval oIs 0 r = y0_set nodelist I0 /\ vval oSs 0 r = x0_of (y0_set nodelist I0)
+   else sval oI 0 r == cnt (fun u => mem u I0) nodelist /\ sval oS 0 r == Qnat (length nodelist) - cnt (fun u => mem u I0) nodelist) /\
+  (forall j, (j < n)%nat -> (if full then vsum (vval oSs j r) + vsum (vval oIs j r) else sval oS j r + sval oI j r) == Qnat (length nodelist)).
+Proof. exact out_SIS_individual_based_pure_IC. Qed.
+Print Assumptions C06out_SIS_individual_based_pure_IC.
+(* the order of nodelist matters: node 2 listed first *)
+Example C06out_pure_IC_nodelist_example :
+  exists r, run_model (m_SIS_individual_based_pure_IC path3 [2%N] (Some [2%N; 0%N; 1%N]) true) 0 1 2 (fun x0 ts => map (fun _ => x0) ts) = Ok r
+            /\ vval oIs 1 r = [1; 0; 0] /\ r_X0 r = [1; 0; 0].
+Proof. eexists. split; [vm_compute; reflexivity|]. vm_compute. auto. Qed.
+Print Assumptions C06out_pure_IC_nodelist_example.
+Theorem C06out_SIR_individual_based_rho : forall sv g tmin tmax n r, msolver_ok sv -> (0 < n)%nat -> forall rho nl full,
+  run_model (m_SIR_individual_based g (Some rho) None None nl full) tmin tmax n sv = Ok r ->
+  let nodelist := nodelist_or g nl in
+  shaped r tmin tmax n (x0_of (y0_rho nodelist rho) ++ y0_rho nodelist rho) (if full then [oS; oI; oR; oSs; oIs; oRs] else [oS; oI; oR]) /\
+  sval oS 0 r == (1 - rho) * Qnat (length nodelist) /\ sval oI 0 r == rho * Qnat (length nodelist) /\ sval oR 0 r == 0 /\
+  (forall j, (j < n)%nat -> sval oS j r + sval oI j r + sval oR j r == Qnat (length nodelist)).
+Proof. exact out_SIR_individual_based_rho. Qed.
+Print Assumptions C06out_SIR_individual_based_rho.
+Theorem C06out_SIR_individual_based_pure_IC : forall sv g tmin tmax n r, msolver_ok sv -> (0 < n)%nat -> forall I0 R0 nl full,
+  run_model (m_SIR_individual_based_pure_IC g I0 R0 nl full) tmin tmax n sv = Ok r ->
+  let nodelist := nodelist_or g nl in
+  let X0v := match R0 with None => x0_of (y0_set nodelist I0) | Some rr => x0_sets nodelist I0 rr end in
+  shaped r tmin tmax n (X0v ++ y0_set nodelist I0) (if full then [oS; oI; oR; oSs; oIs; oRs] else [oS; oI; oR]) /\
+  sval oS 0 r == cnt (fun u => negb (mem u (match R0 with None => [] | Some rr => rr end) || mem u I0)) nodelist /\
+  sval oI 0 r == cnt (fun u => mem u I0) nodelist /\
+  sval oS 0 r + sval oI 0 r + sval oR 0 r == Qnat (length nodelist) /\
+  (full = true -> vval oSs 0 r = X0v /\ vval oIs 0 r = y0_set nodelist I0) /\
+  (forall j, (j < n)%nat -> sval oS j r + sval oI j r + sval oR j r == Qnat (length nodelist)).
+Proof. exact out_SIR_individual_based_pure_IC. Qed.
+Print Assumptions C06out_SIR_individual_based_pure_IC.
+Theorem C06out_SIS_pair_based_Y0 : forall sv g tmin tmax n r, msolver_ok sv -> (0 < n)%nat -> forall Y0 nl full,
+  length Y0 = length (gnodes g) -> length nl = length (gnodes g) ->
+  run_model (m_SIS_pair_based g None (Some nl) (Some Y0) None None full) tmin tmax n sv = Ok r ->
+  let A := amask g nl (outer (x0_of Y0) Y0) in let B := amask g nl (outer (x0_of Y0) (x0_of Y0)) in
+  shaped r tmin tmax n (Y0 ++ flatten A ++ flatten B) (if full then [oS; oI; oXs; oYs; oXY; oXX] else [oS; oI]) /\
+  sval oI 0 r = vsum Y0 /\ sval oS 0 r == Qnat (length Y0) - vsum Y0 /\
+  (full = true -> vval oYs 0 r = Y0 /\ vval oXs 0 r = x0_of Y0 /\ mval oXY 0 r = A /\ mval oXX 0 r = B) /\
+  (forall j, (j < n)%nat -> sval oS j r + sval oI j r == Qnat (length Y0)).
+Proof. exact out_SIS_pair_based_Y0. Qed.
+Print Assumptions C06out_SIS_pair_based_Y0.
+Theorem C06out_rejects_SIS_pair_based : forall g rho nl Y0 XY0 XX0 full,
+  (Y0 <> None /\ rho <> None) \/ (Y0 <> None /\ nl = None) \/ (exists y, Y0 = Some y /\ rho = None /\ nl <> None /\ length y <> length (gnodes g)) ->
+  m_SIS_pair_based g rho nl Y0 XY0 XX0 full = Err EoNError.
+Proof. exact rejects_SIS_pair_based. Qed.
+Print Assumptions C06out_rejects_SIS_pair_based.
+Theorem C06out_SIS_pair_based_pure_IC : forall sv g tmin tmax n r, msolver_ok sv -> (0 < n)%nat -> forall I0 nl full,
+  length (nodelist_or g nl) = length (gnodes g) ->
+  run_model (m_SIS_pair_based_pure_IC g I0 nl full) tmin tmax n sv = Ok r ->
+  let nodelist := nodelist_or g nl in let Y0 := y0_set nodelist I0 in
+  let A := amask g nodelist (outer (x0_of Y0) Y0) in let B := amask g nodelist (outer (x0_of Y0) (x0_of Y0)) in
+  shaped r tmin tmax n (Y0 ++ flatten A ++ flatten B) (if full then [oS; oI; oXs; oYs; oXY; oXX] else [oS; oI]) /\
+  sval oI 0 r == cnt (fun u => mem u I0) nodelist /\ sval oS 0 r == Qnat (length nodelist) - cnt (fun u => mem u I0) nodelist /\
+  (full = true -> vval oYs 0 r = Y0 /\ vval oXs 0 r = x0_of Y0 /\ mval oXY 0 r = A /\ mval oXX 0 r = B) /\
+  (forall j, (j < n)%nat -> sval oS j r + sval oI j r == Qnat (length nodelist)).
+Proof. exact out_SIS_pair_based_pure_IC. Qed.
+Print Assumptions C06out_SIS_pair_based_pure_IC.
+Theorem C06out_SIR_pair_based_Y0 : forall sv g tmin tmax n r, msolver_ok sv -> (0 < n)%nat -> forall Y0 X0 nl full,
+  length Y0 = length (gnodes g) -> length X0 = length (gnodes g) -> length nl = length (gnodes g) ->
+  run_model (m_SIR_pair_based g None (Some nl) (Some Y0) (Some X0) None None full) tmin tmax n sv = Ok r ->
+  let A := amask g nl (outer X0 Y0) in let B := amask g nl (outer X0 X0) in
+  shaped r tmin tmax n (X0 ++ Y0 ++ flatten A ++ flatten B) (if full then [oS; oI; oR; oXs; oYs; oZs; oXY; oXX] else [oS; oI; oR]) /\
+  sval oS 0 r = vsum X0 /\ sval oI 0 r = vsum Y0 /\ sval oR 0 r == Qnat (length X0) - vsum X0 - vsum Y0 /\
+  (full = true -> vval oXs 0 r = X0 /\ vval oYs 0 r = Y0 /\ vval oZs 0 r = vsub (x0_of X0) Y0 /\ mval oXY 0 r = A /\ mval oXX 0 r = B) /\
+  (forall j, (j < n)%nat -> sval oS j r + sval oI j r + sval oR j r == Qnat (length X0)).
+Proof. exact out_SIR_pair_based_Y0. Qed.
+Print Assumptions C06out_SIR_pair_based_Y0.
+Theorem C06out_SIR_pair_based_pure_IC : forall sv g tmin tmax n r, msolver_ok sv -> (0 < n)%nat -> forall I0 R0 nl full,
+  length (nodelist_or g nl) = length (gnodes g) ->
+  run_model (m_SIR_pair_based_pure_IC g I0 R0 nl full) tmin tmax n sv = Ok r ->
+  let nodelist := nodelist_or g nl in let Y0 := y0_set nodelist I0 in
+  let X0 := match R0 with None => x0_of Y0 | Some rr => x0_sets nodelist I0 rr end in
+  let A := amask g nodelist (outer X0 Y0) in let B := amask g nodelist (outer X0 X0) in
+  shaped r tmin tmax n (X0 ++ Y0 ++ flatten A ++ flatten B) (if full then [oS; oI; oR; oXs; oYs; oZs; oXY; oXX] else [oS; oI; oR]) /\
+  sval oS 0 r = vsum X0 /\ sval oI 0 r == cnt (fun u => mem u I0) nodelist /\
+  (full = true -> vval oXs 0 r = X0 /\ vval oYs 0 r = Y0 /\ mval oXY 0 r = A /\ mval oXX 0 r = B) /\
+  (forall j, (j < n)%nat -> sval oS j r + sval oI j r + sval oR j r == Qnat (length nodelist)).
+Proof. exact out_SIR_pair_based_pure_IC. Qed.
+Print Assumptions C06out_SIR_pair_based_pure_IC.
+Example C06out_SIR_pair_based_pure_IC_example :     (* path a-b-c, b infected, c recovered, nodelist (c, a, b) *)
+  exists r, run_model (m_SIR_pair_based_pure_IC path3 [1%N] (Some [2%N]) (Some [2%N; 0%N; 1%N]) true) 0 1 2 (fun x0 ts => map (fun _ => x0) ts) = Ok r
+            /\ vval oXs 1 r = [0; 1; 0] /\ vval oYs 1 r = [0; 0; 1] /\ mval oXY 1 r = [[0; 0; 0]; [0; 0; 1]; [0; 0; 0]]
+            /\ map Qred [sval oS 1 r; sval oI 1 r; sval oR 1 r] = [1; 1; 1].
+Proof. eexists. split; [vm_compute; reflexivity|]. vm_compute. auto. Qed.
+Print Assumptions C06out_SIR_pair_based_pure_IC_example.
+
+(* ====================== EBCM variants ====================== *)
+Theorem C06out_EBCM_uniform_introduction_forwards : forall N psi psiP rho full,
+  m_EBCM_uniform_introduction N psi psiP rho full = m_EBCM N (fun x => (1 - rho) * psi x) 0 full /\
+  fwd_EBCM_uniform_introduction N psi psiP rho = mkEb N (fun x => (1 - rho) * psi x) (fun x => (1 - rho) * psiP x) (1 - rho) 0 0.
+Proof. exact out_EBCM_uniform_introduction_forwards. Qed.
+Print Assumptions C06out_EBCM_uniform_introduction_forwards.
+Theorem C06out_EBCM_uniform_introduction : forall sv N psi psiP rho full tmin tmax n r,
+  msolver_ok sv -> (0 < n)%nat -> psi 1 == 1 ->
+  run_model (m_EBCM_uniform_introduction N psi psiP rho full) tmin tmax n sv = Ok r ->
+  shaped r tmin tmax n [1; 0] (if full then [oS; oI; oR; oTheta] else [oS; oI; oR]) /\
+  sval oS 0 r == (1 - rho) * N /\ sval oI 0 r == rho * N /\ sval oR 0 r = 0 /\
+  (full = true -> sval oTheta 0 r = 1) /\
+  (forall j, (j < n)%nat -> sval oS j r + sval oI j r + sval oR j r == N).
+Proof. exact out_EBCM_uniform_introduction. Qed.
+Print Assumptions C06out_EBCM_uniform_introduction.
+(* state layout [R, theta_k1, phiR_k1, ...] over SORTED keys; the returned theta are the entries 1+2*index *)
+Theorem C06out_EBCM_pref_mix : forall sv N pk rho full tmin tmax n r,
+  msolver_ok sv -> (0 < n)%nat -> run_model (m_EBCM_pref_mix N pk rho full) tmin tmax n sv = Ok r ->
+  let rho' := match rho with Some x => x | None => 1 / N end in
+  let spk := pk_sorted pk in
+  shaped r tmin tmax n (pm_IC spk) (if full then [oS; oI; oR; oTheta] else [oS; oI; oR]) /\
+  sval oS 0 r == N * ((1 - rho') * dsum spk (fun _ p => p)) /\ sval oR 0 r == 0 /\
+  (full = true -> vval oTheta 0 r = map (fun k => pm_theta spk (pm_IC spk) k) (map fst spk)) /\
+  (forall j, (j < n)%nat -> sval oS j r + sval oI j r + sval oR j r == N).
+Proof. exact out_EBCM_pref_mix. Qed.
+Print Assumptions C06out_EBCM_pref_mix.
+Theorem C06out_EBCM_pref_mix_theta_starts_at_one : forall spk k, In k (map fst spk) -> pm_theta spk (pm_IC spk) k = 1.
+Proof. exact pm_theta_IC. Qed.
+Print Assumptions C06out_EBCM_pref_mix_theta_starts_at_one.
+Theorem C06out_EBCM_pref_mix_S_is_pm_out_S : forall spk N rho X, N * pm_fracS spk rho X = pm_out_S spk N rho X.
+Proof. exact asm_EBCM_pref_mix_is_pm_out. Qed.
+Print Assumptions C06out_EBCM_pref_mix_S_is_pm_out_S.
+Theorem C06out_EBCM_pref_mix_from_graph_forwards : forall g rho full,
+  m_EBCM_pref_mix_from_graph g rho full = m_EBCM_pref_mix (gN g) (pk_of_graph g) rho full.
+Proof. exact out_EBCM_pref_mix_from_graph_forwards. Qed.
+Print Assumptions C06out_EBCM_pref_mix_from_graph_forwards.
+Example C06out_EBCM_pref_mix_example :     (* keys given as 3, 1: layout and returned theta in sorted order *)
+  exists r, run_model (m_EBCM_pref_mix 10 [(3%nat, 1 # 4); (1%nat, 3 # 4)] (Some (1 # 5)) true) 0 1 2 (fun x0 ts => match ts with [] => [] | _ => [x0; [1 # 10; 1 # 2; 0; 1 # 3; 0]] end) = Ok r
+            /\ r_X0 r = [0; 1; 0; 1; 0] /\ vval oTheta 1 r = [1 # 2; 1 # 3]
+            /\ Qred (sval oS 1 r) = Qred (10 * ((4 # 5) * ((3 # 4) * (1 # 2) + (1 # 4) * ((1 # 3) * (1 # 3) * (1 # 3))))).
+Proof. eexists. split; [vm_compute; reflexivity|]. vm_compute. auto. Qed.
+Print Assumptions C06out_EBCM_pref_mix_example.
+
+(* ====================== discrete time ====================== *)
+Theorem C06out_discrete_times : forall tmin tmax, length (dtimes tmin tmax) = S (dsteps tmin tmax) /\
+  forall j, (j <= dsteps tmin tmax)%nat -> nth j (dtimes tmin tmax) 0 = inject_Z (tmin + Z.of_nat j).
+Proof. exact dtimes_spec. Qed.
+Print Assumptions C06out_discrete_times.
+Theorem C06out_EBCM_discrete : forall a p tmin tmax full,
+  let r := o_EBCM_discrete a p tmin tmax full in
+  let T := dsteps tmin tmax in
+  r_times r = dtimes tmin tmax /\ all_len (S T) r /\
+  names (r_series r) = (if full then [oS; oI; oR; oTheta] else [oS; oI; oR]) /\
+  sval oS 0 r = eb_N a * eb_psihat a 1 /\ sval oR 0 r = eb_R0 a /\ sval oI 0 r = eb_N a - eb_N a * eb_psihat a 1 - eb_R0 a /\
+  (full = true -> sval oTheta 0 r = 1) /\
+  (forall j, (j <= T)%nat -> sval oS j r + sval oI j r + sval oR j r == eb_N a) /\
+  (forall j, (j < T)%nat -> sval oR (S j) r = sval oR j r + sval oI j r).
+Proof. exact out_EBCM_discrete. Qed.
+Print Assumptions C06out_EBCM_discrete.
+Theorem C06out_EBCM_discrete_uniform_introduction_forwards : forall N psi psiP p rho tmax full,
+  o_EBCM_discrete_uniform_introduction N psi psiP p rho tmax full =
+  o_EBCM_discrete (mkEb N (fun x => (1 - rho) * psi x) (fun x => (1 - rho) * psiP x) (1 - rho) 0 0) p 0 tmax full.
+Proof. exact out_EBCM_discrete_uniform_introduction. Qed.
+Print Assumptions C06out_EBCM_discrete_uniform_introduction_forwards.
+(* EBCM_discrete_from_graph hands over N = |G|, a closure with N psihat(1) = the number of susceptible nodes, R0 = the number of
+   recovered nodes, phiS0 = [SS]/[SX], phiR0 = [SR]/[SX] (explicit sets) or (1-rho)N, 0, 1-rho, 0 (rho) *)
+Theorem C06out_EBCM_discrete_from_graph_sets : forall g rq I0 a,
+  wf_ugraph g = true -> rq_I rq = Some I0 -> fwd_EBCM_discrete_from_graph g rq = Ok a ->
+  exists st, initialize_node_status g I0 (rq_R rq) = Ok st /\
+    eb_N a = gN g /\ eb_N a * eb_psihat a 1 == cnt (isS st) (gnodes g) /\ eb_R0 a = cnt (isR st) (gnodes g) /\
+    eb_phiS0 a == SS_of g st / SX_of g st /\ eb_phiR0 a == SR_of g st / SX_of g st.
+Proof. exact fwd_EBCM_discrete_from_graph_sets. Qed.
+Print Assumptions C06out_EBCM_discrete_from_graph_sets.
+Theorem C06out_EBCM_discrete_from_graph_rho : forall g rq,
+  wf_ugraph g = true -> rq_I rq = None -> rq_R rq = None ->
+  exists a, fwd_EBCM_discrete_from_graph g rq = Ok a /\ eb_N a = gN g /\
+    eb_N a * eb_psihat a 1 == (1 - rho_or_default g (rq_rho rq)) * gN g /\ eb_R0 a = 0 /\ eb_phiS0 a = 1 - rho_or_default g (rq_rho rq) /\ eb_phiR0 a = 0.
+Proof. exact fwd_EBCM_discrete_from_graph_rho. Qed.
+Print Assumptions C06out_EBCM_discrete_from_graph_rho.
+Example C06out_EBCM_discrete_from_graph_example :     (* path a-b-c, b infected, c recovered: S0 = 1, I0 = 1, R0 = 1 at tmin = 2 *)
+  exists r, o_EBCM_discrete_from_graph path3 (mkReq (Some [1%N]) (Some [2%N]) None) (1 # 2) 2 4 true = Ok r
+            /\ r_times r = [2; 3; 4] /\ map (fun nm => Qred (sval nm 0 r)) [oS; oI; oR; oTheta] = [1; 1; 1; 1]
+            /\ Qred (sval oR 1 r) = 2.
+Proof. eexists. split; [vm_compute; reflexivity|]. vm_compute. auto. Qed.
+Print Assumptions C06out_EBCM_discrete_from_graph_example.
+Theorem C06out_EBCM_pref_mix_discrete : forall N pk pnk p rho tmin tmax full,
+  let r := o_EBCM_pref_mix_discrete N pk pnk p rho tmin tmax full in
+  let rho' := match rho with Some x => x | None => 1 / N end in
+  let T := dsteps tmin tmax in
+  r_times r = dtimes tmin tmax /\ all_len (S T) r /\
+  names (r_series r) = (if full then [oS; oI; oR; oTheta] else [oS; oI; oR]) /\
+  sval oS 0 r = N * (1 - rho') /\ sval oI 0 r = N * rho' /\ sval oR 0 r = 0 /\
+  (full = true -> vval oTheta 0 r = map (fun k => plookup k (map (fun k => (k, 1)) (map fst pk))) (sort_keys (map fst pk))) /\
+  (forall j, (j <= T)%nat -> sval oS j r + sval oI j r + sval oR j r == N) /\
+  (forall j, (j < T)%nat -> sval oR (S j) r = sval oR j r + sval oI j r).
+Proof. exact out_EBCM_pref_mix_discrete. Qed.
+Print Assumptions C06out_EBCM_pref_mix_discrete.
+Theorem C06out_EBCM_pref_mix_discrete_from_graph_forwards : forall g p rho tmin tmax full,
+  o_EBCM_pref_mix_discrete_from_graph g p rho tmin tmax full = o_EBCM_pref_mix_discrete (gN g) (pk_of_graph g) (pnk_of_graph g) p rho tmin tmax full.
+Proof. exact out_EBCM_pref_mix_discrete_from_graph_forwards. Qed.
+Print Assumptions C06out_EBCM_pref_mix_discrete_from_graph_forwards.
+
+(* ====================== Attack_rate_*_from_graph ====================== *)
+Theorem C06out_Attack_rate_from_graph_forwards : forall g rq a,
+  fwd_Attack_rate_from_graph g rq = Ok a ->
+  ar_pk a = pk_of_graph g /\
+  match rq_I rq with
+  | Some I0 => exists st, initialize_node_status g I0 (rq_R rq) = Ok st /\ ar_rho a = None /\
+      (exists s, ar_Sk0 a = Some s /\ forall k, s k = Sk_cnt g st k * (1 / vnth k (Nk_of g))) /\
+      ar_phiS0 a = Some (SS_of g st * 1 / SX_of g st) /\ ar_phiR0 a = SR_of g st * 1 / SX_of g st
+  | None => ar_rho a = rq_rho rq /\ ar_Sk0 a = None /\ ar_phiS0 a = None /\ ar_phiR0 a = 0
+  end.
+Proof. exact fwd_Attack_rate_from_graph_spec. Qed.
+Print Assumptions C06out_Attack_rate_from_graph_forwards.
+(* with explicit sets, the closure built from the forwarded Sk0 has N psihat(1) = number of susceptible nodes: the attack rate
+   counted from the requested state *)
+Theorem C06out_Attack_rate_from_graph_psihat1 : forall g st, wf_ugraph g = true ->
+  gN g * psihat_of (pk_of_graph g) (fun k => Sk_cnt g st k * (1 / vnth k (Nk_of g))) 1 == cnt (isS st) (gnodes g).
+Proof. exact attack_psihat1_sets. Qed.
+Print Assumptions C06out_Attack_rate_from_graph_psihat1.
+Example C06out_Attack_rate_example :     (* star with centre infected: nobody else can be protected when p = 1 *)
+  exists x, o_Attack_rate_discrete_from_graph star4 (mkReq (Some [0%N]) None None) 1 2 = Ok x /\ Qred x = 1.
+Proof. eexists. split; [vm_compute; reflexivity|]. vm_compute. reflexivity. Qed.
+Print Assumptions C06out_Attack_rate_example.
